@@ -69,3 +69,46 @@ func vxH_C14_indexDiff() {
 	sc1, sc2 := c1.(*segmentCursor), c2.(*segmentCursor)
 	vxAssert("cursor-index-independent", sc1.start == sc2.start && sc1.end == sc2.end)
 }
+
+func init() { vxRegister("vxH_C14_skewed", vxH_C14_skewed) }
+
+// vxH_C14_skewed: key sets whose long keys come first, so that the index
+// runs out of byte space and covers only a prefix of the segment (more keys
+// than the fully symbolic harness can afford; the keys are concrete, quota,
+// threshold and probe are symbolic).
+func vxH_C14_skewed() {
+	sets := [][]string{
+		{"aa", "ab", "ac", "ad", "b"},
+		{"aa", "ab", "ac", "ad", "b", "c"},
+		{"", "aa", "ab", "ac", "b", "c", "d"},
+		{"aa", "ab", "b", "c", "d", "e", "f", "g"},
+	}
+	keys := sets[vxChoose(len(sets))]
+	var ents []vxEnt
+	for _, ks := range keys {
+		var e vxEnt
+		e.op = vxNewOp(vxOpsSetDel)
+		e.k.n = len(ks)
+		for j := 0; j < len(ks); j++ {
+			e.k.b[j] = ks[j]
+		}
+		ents = append(ents, e)
+	}
+	seg := vxSegOf(ents)
+	twin := vxSegOf(ents)
+	quota := 4 + vxChoose(40)
+	seg.buildIndex(quota, 0)
+	K := vxNewKey(vxKL)
+	kb := vxKeyBytes(K)
+	p1, e1 := seg.findKeyPos(kb)
+	p2, e2 := twin.findKeyPos(kb)
+	vxAssert("findKeyPos-no-error", e1 == nil && e2 == nil)
+	vxObserveInt("findKeyPos", p1)
+	vxAssert("findKeyPos-index-independent", p1 == p2)
+	s1 := seg.findStartKeyInclusivePos(kb)
+	s2 := twin.findStartKeyInclusivePos(kb)
+	vxAssert("findStart-index-independent", s1 == s2)
+	if seg.index != nil && seg.index.numKeys >= 2 {
+		vxReach("indexed")
+	}
+}
